@@ -21,6 +21,8 @@ def jobs(tier):
     add("c06.ub", 1 if q else 2, grace=1, adv=1, a=1, b=2, sleepadv_ns=0, sync=0, soft=1, hard=1, tbuf=1)
     # ordering disabled: own statements only; real file read back; concurrent flusher
     add("c06.ub", 2, grace=0, adv=0, a=2, b=1, file=1, flushint_ms=200)
+    # the same with a FileSink that has a before_write hook (other write path inside the sink)
+    add("c06.ub", 1, grace=0, adv=0, a=2, b=1, file=2, flushint_ms=200)
     add("c06.ub", 1 if q else 2, grace=0, adv=0, a=1, b=1, f3=1, flushint_ms=200)
     # no virtual time passes except while a caller sleeps in flush_log (longer than the grace period): a cut-off taken once
     # per read pass keeps the order, one that moves inside the pass does not
